@@ -33,6 +33,17 @@ THOROUGH = {
 }
 
 
+# long random histories (TLC -simulate): three providers so that the merge threshold is crossed both ways
+SIM = consts(ProvSeq="<- Prov3", MaxCalls=14, MaxEnv=10, MaxTicks=2)
+SIM_NOTICK = consts(ProvSeq="<- Prov3", MaxCalls=14, MaxEnv=10, MaxTicks=0)
+
+
+def simulate(c, seed, num, tag):
+    """num behaviours per worker x 4 workers from TLC's random simulation of the same spec."""
+    return vlib.tlc("ProviderCacheMC", (tag + ".cfg", vlib.cfg_text(c, INV, view="view")), workers=4, simulate=num, depth=400,
+                    seed=seed, timeout=3000, tag=tag)
+
+
 def srcs_provs(c):
     s = {"<- Src1": "s1", "<- Src2": "s1,s2", "<- Src3": "s1,s2,s3"}[c["SrcSeq"]]
     p = {"<- Prov2": "p,q", "<- Prov3": "p,q,r"}[c["ProvSeq"]]
@@ -59,6 +70,12 @@ def run(tier, seed, replay=None):
     for name, c in cfgs.items():
         r = res[name]
         ck.add_tlc("ProviderCache/" + name, r, "constants " + str({k: v for k, v in c.items() if k not in ("EXPORT",)}))
+    # 2b. long random histories from TLC's simulator (seeded)
+    sim = simulate(SIM, seed, 150 if tier == "quick" else 5000, "c06sim")
+    ck.add_tlc("ProviderCache/simulate", sim, "random behaviours, 3 providers, 14 calls, 10 environment changes, 2 ticks; seed %d" % seed)
+    cfgs = dict(cfgs)
+    cfgs["simulate"] = SIM
+    res["simulate"] = sim
     # 3. replay every exported behaviour on the real cache
     for name, c in cfgs.items():
         r = res[name]
